@@ -729,7 +729,8 @@ impl Gen {
             _ => HostileTarget::Random { len: *rng.pick(&[0usize, 1, 2, 7, 16, 17, 40, 200, 1000]), seed: rng.next_u64() },
         };
         const BOUNDARY: &[u64] = &[0, 1, 2, 127, 128, 255, 16383, 16384, 1 << 31, (1 << 32) - 1, 1 << 32, 1 << 45, 1 << 62, 1 << 63, u64::MAX];
-        let mutation = match rng.below(10) {
+        let mutation = match rng.below(11) {
+            10 => HostileMut::Empty { which: rng.below(4) as u8 },
             0 => HostileMut::None,
             1 | 2 => HostileMut::Truncate { len: rng.below(6000) },
             3 => HostileMut::SetByte { pos: rng.below(6000), val: *rng.pick(&[0u8, 1, 2, 0x7f, 0x80, 0xff, 0xfe]) },
